@@ -119,6 +119,12 @@ package tls
 //@   |   && bytes(opts(arg2).WithExpectedPublicKey) == bytes(opts(opt).WithExpectedPublicKey) && len(opts(arg2).WithExpectedPublicKey) == len(opts(opt).WithExpectedPublicKey)
 //@   call tls.standardTlsConfig assert[C02,C07 poolfromresponse] in != nil && len(in.CertificateBundles) == 2 && (forall c Int :: poolHas(rootPool, c) ==>
 //@   |   c == certOf(in.CertificateBundles[0].CaCertificateDer) || c == certOf(in.CertificateBundles[1].CaCertificateDer))
+// what the certificate-selection callback it installs has captured satisfies that callback's precondition
+//@   ensures[C14 callbackpre] err == nil ==> closureOf(ret.GetCertificate, "tls.ServerConfig$1") && captured(ret.GetCertificate, "tls.ServerConfig$1", "opts") != nil
+//@   |   && (forall k String :: mapHas(captured(ret.GetCertificate, "tls.ServerConfig$1", "certMap"), k) ==>
+//@   |        mapGet(captured(ret.GetCertificate, "tls.ServerConfig$1", "certMap"), k) != nil
+//@   |        && mapGet(captured(ret.GetCertificate, "tls.ServerConfig$1", "certMap"), k).leaf != nil
+//@   |        && mapGet(captured(ret.GetCertificate, "tls.ServerConfig$1", "certMap"), k).ca != nil)
 //@   ensures[C02,C07 gate] err == nil ==> closureOf(ret.VerifyConnection, "tls.standardTlsConfig$1")
 //@   |   && captured(ret.VerifyConnection, "tls.standardTlsConfig$1", "opts").WithAlpnProtoPrefix == opts(opt).WithAlpnProtoPrefix
 //@   |   && bytes(captured(ret.VerifyConnection, "tls.standardTlsConfig$1", "opts").WithExpectedPublicKey) == bytes(opts(opt).WithExpectedPublicKey)
@@ -190,3 +196,15 @@ package tls
 //@   |   && hasPrefix(ret[0].NextProtos[len(ret[0].NextProtos) - 1], "v1-nodee-certificate-preference-")
 //@   |   && hasPrefix(ret[1].NextProtos[len(ret[1].NextProtos) - 1], "v1-nodee-certificate-preference-")
 //@   |   && ret[0].NextProtos[len(ret[0].NextProtos) - 1] != ret[1].NextProtos[len(ret[1].NextProtos) - 1]
+
+// The certificate-selection callback of ServerConfig runs inside the TLS handshake on the ClientHello of a
+// remote peer: whatever protocols the hello lists, it does not panic. (The certificate map it captured holds
+// non-nil bundles with parsed leaf and CA certificates: crypto/x509.ParseCertificate returns a non-nil
+// certificate when it returns no error - TRUSTED.)
+//@ func tls.ServerConfig$1
+//@   requires[hello] hello != nil && opts != nil
+//@   requires[bundles] forall k String :: mapHas(certMap, k) ==> mapGet(certMap, k) != nil && mapGet(certMap, k).leaf != nil && mapGet(certMap, k).ca != nil
+//@   nopanic[C14]
+//@   ensures[C14 nilornot] err == nil
+//@   loop 0 invariant[scan] rangeindex + 1 >= 0
+//@   loop 1 unroll 1
